@@ -944,7 +944,14 @@ fn branch_cases() -> Vec<(&'static str, &'static str)> {
         ("21", "F1:3,F2:3,F2:4,F1:4,X2:7,Z1,Kp:5,L3:5,B4:2,u1:5"),
         ("01", "L1:5,N1:5,Np:6,Up:7,Lp:5"),
         // table full
-        ("21", "Ap:60,Kp:71,Z3,P,Ap:60,Kp:72,Z4,P,Ap:60,Kp:73,Z5,P,Ap:60,Kp:74,E,X1:4,P,Ap:60,Kp:75,Z4"),
+        ("21", "Ap:60,Kp:71,Z3,P,Ap:60,Kp:72,Z4,P,Ap:60,Kp:73,Z5,P,Ap:60,Kp:74,E,X1:4,P,Ap:60,Kp:75,Z6,L6:5,Q,L6:6"),
+        // the local index grows past the size of the table: highest index in use + 1
+        ("21", "Ap:60,Kp:71,Z3,P,Ap:60,Kp:72,Z4,P,Ap:60,Kp:73,Z5,X1:1,P,Ap:60,Kp:74,Z6,L6:5,F6:3,B6:4,D6:2,Q,L6:7,X6:2,P,Ap:60,Kp:75,Z7,Q"),
+        // ... up to 254, then the first unused one
+        ("i250:1", "Ap:60,Kp:71,Z251,P,Ap:60,Kp:72,Z252,L252:5,Q,X250:250,P,Ap:60,Kp:73,Z253,P,Ap:60,Kp:74,Z254,Q,P,Ap:60,Kp:75,Z1,L1:6,Q,P,Ap:60,Kp:76"),
+        ("i252+253+254:1", "Ap:60,Kp:71,Z1,Q,P,Ap:60,Kp:72,Z2,F2:3,Q,X1:254,P,Ap:60,Kp:73,Z3,Q"),
+        ("i254:1", "Ap:60,Kp:71,Z1,X1:254,P,Ap:60,Kp:72,Z2,Q"),
+        ("i6+100+200:0", "L6:3,F100:4,B200:5,G6:2,I100:3,Q,X6:100,Q,L200:8"),
     ]
 }
 
@@ -1060,6 +1067,99 @@ fn generate(tier: &str, seed: u64) -> (Vec<String>, String) {
         lens += v.len();
         cases.push(format!("S {} {}{} {}", nid(), nfab, rng.below(2), v.join(",")));
     }
+    // the fabric index past the size of the fabric table: a long remove-the-older / add cycle ...
+    let cycles: Vec<usize> = if thorough { vec![40, 256] } else { vec![40] };
+    for ncyc in cycles {
+        let mut v: Vec<String> = Vec::new();
+        let mut idx = 2u32; // the newest fabric so far
+        for c in 0..ncyc {
+            // Fabrics::add_with_post_init: highest index in use + 1 below 254, else the first unused one
+            // (the table is {1, idx}: with idx = 254 the first unused index is 2)
+            let next = if idx < 254 { idx + 1 } else { 2 };
+            v.push("P".into());
+            v.push("Ap:60".into());
+            v.push(format!("Kp:{}", 70 + c % 9));
+            v.push(format!("Z{}", next));
+            if c % 3 == 0 {
+                v.push(format!("L{}:{}", next, 1 + c % 9));
+            }
+            v.push(format!("X1:{}", idx));
+            if c % 7 == 6 || c + 1 == ncyc {
+                v.push("Q".into());
+            }
+            idx = next;
+        }
+        lens += v.len();
+        cases.push(format!("S {} 21 {}", nid(), v.join(",")));
+    }
+    // ... and a sample of the whole index range 6..=253 (thorough: every index): a node whose highest index is j
+    // is commissioned once more (index j + 1), written to, restarted, and the older fabric removed
+    let sample: Vec<u64> = if thorough {
+        (5..=253).collect()
+    } else {
+        let mut v: Vec<u64> = vec![5, 6, 7, 15, 16, 31, 63, 64, 126, 127, 128, 129, 191, 200, 251, 252, 253];
+        for _ in 0..8 {
+            v.push(rng.range(8, 250));
+        }
+        v
+    };
+    for j in sample {
+        let k = 1 + rng.below(9);
+        let ops = format!(
+            "Ap:60,Kp:{},Z{n},L{n}:{k},{w},Q,F{n}:{k},X{n}:{j},Q",
+            70 + j % 9,
+            n = j + 1,
+            k = k,
+            w = format!("{}{}:{}", *rng.pick(&["B", "I", "s", "o", "t", "D"]), j + 1, k),
+            j = j
+        );
+        lens += 9;
+        cases.push(format!("S {} i{}:1 {}", nid(), j, ops));
+    }
+    // churn: random histories that keep commissioning and removing (the generator tracks the table)
+    let n_churn = if thorough { 400 } else { 30 };
+    for _ in 0..n_churn {
+        let start: Vec<u64> = if rng.chance(1, 3) { vec![rng.range(3, 250)] } else { vec![1, 2] };
+        let mut table: Vec<u64> = start.clone();
+        let mut v: Vec<String> = Vec::new();
+        let rounds = rng.range(4, 9);
+        for r in 0..rounds {
+            if table.len() >= 5 || (table.len() >= 2 && rng.chance(1, 2)) {
+                let g = *rng.pick(&table);
+                let by = *rng.pick(&table);
+                table.retain(|x| *x != g);
+                v.push(format!("X{}:{}", by, g));
+                if table.is_empty() {
+                    break;
+                }
+            }
+            let mx = table.iter().max().copied().unwrap_or(0);
+            let next = if mx < 254 { mx + 1 } else { (1..255).find(|i| !table.contains(i)).unwrap() };
+            v.push("P".into());
+            v.push("Ap:60".into());
+            v.push(format!("Kp:{}", 70 + r));
+            if rng.chance(1, 3) {
+                v.push(format!("L{}:{}", next, 1 + rng.below(9)));
+            }
+            match rng.below(8) {
+                0 => v.push("E".into()),
+                1 => v.push("Q".into()),
+                _ => {
+                    v.push(format!("Z{}", next));
+                    table.push(next);
+                    let k = 1 + rng.below(9);
+                    v.push(format!("{}{}:{}", *rng.pick(&["L", "F", "G", "B", "I", "s", "o", "D", "V"]), next, k));
+                }
+            }
+            if rng.chance(1, 3) {
+                v.push("Q".into());
+            }
+        }
+        v.push("Q".into());
+        lens += v.len();
+        let init = if start.len() == 1 { format!("i{}:1", start[0]) } else { "21".to_string() };
+        cases.push(format!("S {} {} {}", nid(), init, v.join(",")));
+    }
     // round trips
     let rt = if thorough { 400 } else { 40 };
     for s in ["fabric", "basic", "resumption", "nets"] {
@@ -1080,7 +1180,7 @@ fn generate(tier: &str, seed: u64) -> (Vec<String>, String) {
     }
     let stats = format!(
         "{{\"histories\": {}, \"history_ops\": {}, \"roundtrip_values\": {}, \"corrupt_blobs\": {}}}\n",
-        n_rand + branch_cases().len(),
+        cases.iter().filter(|c| c.starts_with("S ")).count(),
         lens,
         rt * 4,
         per * 100
